@@ -196,7 +196,11 @@ func (oracleC07) Invariant(x *OCtx, v *View, m *Mon) []Violation {
 		parts := splitBar(k)
 		c, svc, p = mustHex(parts[0]), parts[1], mustHex(parts[2])
 		if got := storedVolume(v, c, svc, p); got != n {
-			out = append(out, viol("C07", "volume-counts-delivered-responses", "state", nameOf(p), fmt.Sprintf("stored volume of (%s,%s,%s) is %d, %d responses were accepted", nameOf(c), svc, nameOf(p), got, n)))
+			disc := nameOf(p)
+			if b := m.VolBase[k]; b > 0 && got == n-b {
+				disc += "/delivered-before-a-zero-height-export-forgotten"
+			}
+			out = append(out, viol("C07", "volume-counts-delivered-responses", "state", disc, fmt.Sprintf("stored volume of (%s,%s,%s) is %d, %d responses were accepted", nameOf(c), svc, nameOf(p), got, n)))
 		}
 	}
 	return out
@@ -259,7 +263,13 @@ func (oracleC07) Step(x *OCtx, t *Trans) []Violation {
 			x.Wit("C07:fee-clamped-or-reduced-to-one")
 		}
 		if fee.Cmp(want) != 0 {
-			out = append(out, viol("C07", "fee-equals-reference-price", kind, fmt.Sprintf("%s/vol=%d", nameOf(r.Provider), vol),
+			disc := fmt.Sprintf("%s/vol=%d", nameOf(r.Provider), vol)
+			if b := t.PreMon.VolBase[volKey(c.Consumer, c.ServiceName, r.Provider)]; b > 0 {
+				if w2, ok := rp.PriceAt(t.Pre.S.BlockTime(), vol-b, rateFn(x.Sc, t.Pre.Params.BaseDenom, t.Pre.S.Height)); ok && fee.Cmp(w2) == 0 {
+					disc += "/delivered-before-a-zero-height-export-forgotten"
+				}
+			}
+			out = append(out, viol("C07", "fee-equals-reference-price", kind, disc,
 				fmt.Sprintf("request to %s at %s with %d prior responses: fee %s, pricing %s gives %s", nameOf(r.Provider), t.Pre.S.BlockTime().Format("15:04:05"), vol, fee, b.Pricing, want)))
 		}
 		max := new(big.Int).Set(rp.Base)
